@@ -509,3 +509,509 @@ Proof.
        dw_dwo dw_addr dw_ranges dw_rnglists].
   repeat (split; [reflexivity|]). rewrite Hh. intros Hv. rewrite Hv. reflexivity.
 Qed.
+
+(* ================================================================== continuation *)
+(* ------------------------------------------------------------------ header size arithmetic of parsed headers *)
+
+Lemma read_un_le n bigend bs v r : read_un n bigend bs = Ok (v, r) -> (length r <= length bs)%nat.
+Proof. intros H. apply AttrProofs.read_un_length in H. lia. Qed.
+Lemma read_u8_le bs v r : read_u8 bs = Ok (v, r) -> (length r <= length bs)%nat.
+Proof. intros H. apply AttrProofs.read_u8_spec in H. destruct H as (b & -> & _). cbn. lia. Qed.
+Lemma read_word_le f bigend bs v r : read_word f bigend bs = Ok (v, r) -> (length r <= length bs)%nat.
+Proof. unfold read_word. destruct f; apply read_un_le. Qed.
+Lemma read_address_size_le bs v r : read_address_size bs = Ok (v, r) -> (length r <= length bs)%nat.
+Proof.
+  unfold read_address_size. destruct (read_u8 bs) as [[s t]| | |] eqn:E; cbn [bind]; try discriminate.
+  destruct ((s =? 1) || (s =? 2) || (s =? 4) || (s =? 8)); [|discriminate].
+  intros H. inversion H; subst. exact (read_u8_le _ _ _ E).
+Qed.
+
+Lemma read_address_size_valid bs v r : read_address_size bs = Ok (v, r) -> valid_asize v = true.
+Proof.
+  unfold read_address_size, valid_asize. destruct (read_u8 bs) as [[s t]| | |]; cbn [bind]; try discriminate.
+  destruct ((s =? 1) || (s =? 2) || (s =? 4) || (s =? 8)) eqn:E; [|discriminate].
+  intros H. inversion H; subst. exact E.
+Qed.
+
+Lemma parse_unit_type_le bigend f code bs t r :
+  parse_unit_type bigend f code bs = Ok (t, r) -> (length r <= length bs)%nat.
+Proof.
+  unfold parse_unit_type, read_u64.
+  repeat match goal with
+  | |- (if ?c then _ else _) = _ -> _ => destruct c
+  end; try discriminate;
+  try (intros H; inversion H; subst; lia);
+  try (destruct (read_un 8 bigend bs) as [[s r1]| | |] eqn:E1; cbn [bind]; try discriminate;
+       apply read_un_le in E1;
+       try (intros H; inversion H; subst; lia);
+       destruct (read_word f bigend r1) as [[o r2]| | |] eqn:E2; cbn [bind]; try discriminate;
+       apply read_word_le in E2; intros H; inversion H; subst; lia).
+Qed.
+
+(* the size arithmetic of every header the parser returns: the entries are what is left of the unit_length bytes
+   that follow the initial length, so header_size = initial length size + unit_length - |entries| cannot
+   underflow, and initial length + unit_length is at most the section size *)
+Lemma parse_unit_header_sizes bigend types uoff bs h after :
+  parse_unit_header bigend types uoff bs = Ok (h, after) ->
+  nlen (u_entries h) <= u_length h /\
+  initial_length_size (fmt64 (u_enc h)) + u_length h + nlen after = nlen bs /\
+  valid_asize (address_size (u_enc h)) = true.
+Proof.
+  unfold parse_unit_header, read_initial_length.
+  destruct (read_un 4 bigend bs) as [[v r]| | |] eqn:E1; cbn [bind]; try discriminate.
+  apply AttrProofs.read_un_length in E1.
+  assert (Hil : forall X : res (N * bool * list byte),
+            X = (if v <? 4294967280 then Ok (v, false, r)
+                 else if v =? 4294967295 then let* (v8, r8) := read_un 8 bigend r in Ok (v8, true, r8)
+                      else Err EUnknownReservedLength) ->
+            forall len f64 r0, X = Ok (len, f64, r0) ->
+              (length r = (if f64 then 8 else 0) + length r0)%nat).
+  { intros X -> len f64 r0. destruct (v <? 4294967280); [intros H; inversion H; subst; lia|].
+    destruct (v =? 4294967295); [|discriminate].
+    destruct (read_un 8 bigend r) as [[v8 r8]| | |] eqn:E8; cbn [bind]; try discriminate.
+    intros H. inversion H; subst. apply AttrProofs.read_un_length in E8. lia. }
+  match goal with |- (bind ?X _) = _ -> _ => pose proof (Hil X eq_refl) as Hx; destruct X as [[[len f64] r0]| | |] end;
+    cbn [bind]; try discriminate.
+  specialize (Hx len f64 r0 eq_refl).
+  destruct (split_n len r0) as [[rest aft]| | |] eqn:Es; cbn [bind]; try discriminate.
+  apply AttrProofs.split_n_spec in Es. destruct Es as [Es Hlen].
+  destruct (read_u16 bigend rest) as [[version r1]| | |] eqn:Ev; cbn [bind]; try discriminate.
+  apply read_un_le in Ev.
+  match goal with |- (bind ?X _) = _ -> _ => destruct X as [[[[ut asz] aoff] r2]| | |] eqn:Ef end;
+    cbn [bind]; try discriminate.
+  assert (Hr2 : (length r2 <= length r1)%nat /\ valid_asize asz = true).
+  { destruct ((2 <=? version) && (version <=? 4)).
+    - destruct (read_word f64 bigend r1) as [[a ra]| | |] eqn:Ea; cbn [bind] in Ef; try discriminate.
+      destruct (read_address_size ra) as [[s rb]| | |] eqn:Eb; cbn [bind] in Ef; try discriminate.
+      apply read_word_le in Ea. pose proof (read_address_size_valid _ _ _ Eb). apply read_address_size_le in Eb. inversion Ef; subst. split; [lia|assumption].
+    - destruct (version =? 5); [|discriminate].
+      destruct (read_u8 r1) as [[a ra]| | |] eqn:Ea; cbn [bind] in Ef; try discriminate.
+      destruct (read_address_size ra) as [[s rb]| | |] eqn:Eb; cbn [bind] in Ef; try discriminate.
+      destruct (read_word f64 bigend rb) as [[c rc]| | |] eqn:Ec; cbn [bind] in Ef; try discriminate.
+      apply read_u8_le in Ea. pose proof (read_address_size_valid _ _ _ Eb). apply read_address_size_le in Eb.
+      apply read_word_le in Ec. inversion Ef; subst. split; [lia|assumption]. }
+  destruct Hr2 as [Hr2 Hva].
+  destruct (parse_unit_type bigend f64 ut r2) as [[utype r3]| | |] eqn:Et; cbn [bind]; try discriminate.
+  apply parse_unit_type_le in Et.
+  intros H. inversion H; subst h after. cbn [u_entries u_length u_enc fmt64 address_size].
+  unfold initial_length_size, nlen. rewrite Es, app_length in Hx.
+  split; [lia|]. split; [destruct f64; lia|exact Hva].
+Qed.
+
+Lemma parsed_header_size dbg bigend types uoff bs h after :
+  parse_unit_header bigend types uoff bs = Ok (h, after) -> nlen bs < two63 ->
+  exists off, header_size dbg h = Ok off /\ off + nlen (u_entries h) < two63.
+Proof.
+  intros Hp Hlen. destruct (parse_unit_header_sizes _ _ _ _ _ _ Hp) as (H1 & H2 & _).
+  exists (initial_length_size (fmt64 (u_enc h)) + u_length h - nlen (u_entries h)).
+  unfold header_size, length_including_self, chk_add, chk_sub.
+  replace (initial_length_size (fmt64 (u_enc h)) + u_length h <? 2 ^ 64) with true
+    by (symmetry; apply N.ltb_lt; unfold two63 in Hlen; lia).
+  cbn [bind].
+  replace (nlen (u_entries h) <=? initial_length_size (fmt64 (u_enc h)) + u_length h) with true
+    by (symmetry; apply N.leb_le; lia).
+  split; [reflexivity|]. unfold two63 in *. lia.
+Qed.
+
+(* ------------------------------------------------------------------ Dwarf::lookup_offset_id *)
+
+(* id lies in the closed address range of the section *)
+Definition inb (place : sid -> N * N) (id : N) (s : sid) : bool :=
+  (fst (place s) <=? id) && (id <=? fst (place s) + snd (place s)).
+Definition placed_ok (place : sid -> N * N) : Prop := forall s, fst (place s) + snd (place s) < two64.
+
+Lemma slice_lookup_spec dbg place id s : placed_ok place ->
+  slice_lookup dbg (place s) id = Ok (if inb place id s then Some (id - fst (place s)) else None).
+Proof.
+  intros H. unfold slice_lookup, chk_add, inb. change (2 ^ 64) with two64.
+  replace (fst (place s) + snd (place s) <? two64) with true by (symmetry; apply N.ltb_lt; apply H).
+  cbn [bind]. destruct ((fst (place s) <=? id) && (id <=? fst (place s) + snd (place s))); reflexivity.
+Qed.
+
+Lemma lookup_first_spec dbg place id : placed_ok place -> forall l,
+  lookup_first dbg place l id =
+  Ok (match find (inb place id) l with Some s => Some (s, id - fst (place s)) | None => None end).
+Proof.
+  intros H l. induction l as [|s t IH]; [reflexivity|]. cbn [lookup_first find].
+  rewrite (slice_lookup_spec dbg place id s H). cbn [bind]. destruct (inb place id s); [reflexivity|exact IH].
+Qed.
+
+Definition lookup_spec (place : sid -> N * N) (sup : option (sid -> N * N)) (id : N) : option (bool * sid * N) :=
+  match find (inb place id) lookup_order with
+  | Some s => Some (false, s, id - fst (place s))
+  | None =>
+      match sup with
+      | Some sp =>
+          match find (inb sp id) lookup_order with
+          | Some s => Some (true, s, id - fst (sp s))
+          | None => None
+          end
+      | None => None
+      end
+  end.
+
+Lemma lookup_offset_id_spec dbg place sup id :
+  placed_ok place -> (forall sp, sup = Some sp -> placed_ok sp) ->
+  lookup_offset_id dbg place sup id = Ok (lookup_spec place sup id).
+Proof.
+  intros H Hs. unfold lookup_offset_id, lookup_spec. rewrite (lookup_first_spec dbg place id H). cbn [bind].
+  destruct (find (inb place id) lookup_order) as [s|]; [reflexivity|].
+  destruct sup as [sp|]; [|reflexivity]. rewrite (lookup_first_spec dbg sp id (Hs sp eq_refl)). cbn [bind].
+  destruct (find (inb sp id) lookup_order); reflexivity.
+Qed.
+
+(* find = the first element of the list satisfying the predicate *)
+Lemma find_first {A} (f : A -> bool) l x :
+  find f l = Some x <-> exists pre post, l = pre ++ x :: post /\ f x = true /\ forallb (fun y => negb (f y)) pre = true.
+Proof.
+  split.
+  - induction l as [|a l IH]; [discriminate|]. cbn [find]. destruct (f a) eqn:E.
+    + intros H. inversion H; subst. exists [], l. auto.
+    + intros H. destruct (IH H) as (pre & post & -> & Hx & Hp). exists (a :: pre), post. cbn. rewrite E. auto.
+  - intros (pre & post & -> & Hx & Hp). induction pre as [|a pre IH]; cbn [app find].
+    + rewrite Hx. reflexivity.
+    + cbn in Hp. apply andb_prop in Hp. destruct Hp as [Ha Hp]. destruct (f a); [discriminate|]. apply IH. exact Hp.
+Qed.
+
+(* (a) an id inside section S of the main file — S searched, no section coded before S containing the id —
+       resolves to (false, S, offset); on a shared boundary the FIRST section in the coded order wins *)
+Lemma lookup_inside dbg place sup id pre S post o :
+  placed_ok place -> (forall sp, sup = Some sp -> placed_ok sp) ->
+  lookup_order = pre ++ S :: post ->
+  id = fst (place S) + o -> o <= snd (place S) ->
+  forallb (fun s => negb (inb place id s)) pre = true ->
+  lookup_offset_id dbg place sup id = Ok (Some (false, S, o)).
+Proof.
+  intros H Hs Hl Hid Ho Hpre. rewrite (lookup_offset_id_spec dbg place sup id H Hs). unfold lookup_spec.
+  assert (Hf : find (inb place id) lookup_order = Some S).
+  { apply find_first. exists pre, post. split; [exact Hl|]. split; [|exact Hpre].
+    unfold inb. apply andb_true_intro. split; apply N.leb_le; lia. }
+  rewrite Hf. f_equal. f_equal. f_equal. lia.
+Qed.
+
+(* (b) the same in the supplementary file, when no searched section of the main file contains the id *)
+Lemma lookup_inside_sup dbg place sp id pre S post o :
+  placed_ok place -> placed_ok sp ->
+  lookup_order = pre ++ S :: post ->
+  id = fst (sp S) + o -> o <= snd (sp S) ->
+  forallb (fun s => negb (inb place id s)) lookup_order = true ->
+  forallb (fun s => negb (inb sp id s)) pre = true ->
+  lookup_offset_id dbg place (Some sp) id = Ok (Some (true, S, o)).
+Proof.
+  intros H Hs Hl Hid Ho Hmain Hpre.
+  rewrite (lookup_offset_id_spec dbg place (Some sp) id H) by (intros ? E; inversion E; subst; exact Hs).
+  unfold lookup_spec.
+  assert (Hn : find (inb place id) lookup_order = None).
+  { destruct (find (inb place id) lookup_order) as [s|] eqn:E; [|reflexivity].
+    apply find_some in E. destruct E as [Hin Ht]. rewrite forallb_forall in Hmain.
+    specialize (Hmain s Hin). rewrite Ht in Hmain. discriminate. }
+  rewrite Hn.
+  assert (Hf : find (inb sp id) lookup_order = Some S).
+  { apply find_first. exists pre, post. split; [exact Hl|]. split; [|exact Hpre].
+    unfold inb. apply andb_true_intro. split; apply N.leb_le; lia. }
+  rewrite Hf. f_equal. f_equal. f_equal. lia.
+Qed.
+
+(* (c) an id in no searched section (of either file) is None *)
+Lemma lookup_none dbg place sup id :
+  placed_ok place -> (forall sp, sup = Some sp -> placed_ok sp) ->
+  forallb (fun s => negb (inb place id s)) lookup_order = true ->
+  (forall sp, sup = Some sp -> forallb (fun s => negb (inb sp id s)) lookup_order = true) ->
+  lookup_offset_id dbg place sup id = Ok None.
+Proof.
+  intros H Hs Hmain Hsup. rewrite (lookup_offset_id_spec dbg place sup id H Hs). unfold lookup_spec.
+  assert (Hn : forall pl, forallb (fun s => negb (inb pl id s)) lookup_order = true ->
+                          find (inb pl id) lookup_order = None).
+  { intros pl Hp. destruct (find (inb pl id) lookup_order) as [s|] eqn:E; [|reflexivity].
+    apply find_some in E. destruct E as [Hin Ht]. rewrite forallb_forall in Hp.
+    specialize (Hp s Hin). rewrite Ht in Hp. discriminate. }
+  rewrite (Hn place Hmain). destruct sup as [sp|]; [|reflexivity]. rewrite (Hn sp (Hsup sp eq_refl)). reflexivity.
+Qed.
+
+(* the three sections of a Dwarf that the chain never asks *)
+Lemma unsearched_sections s : ~ In s lookup_order <-> s = SMacinfo \/ s = SMacro \/ s = SNames.
+Proof.
+  split.
+  - intros H. destruct s; try (exfalso; apply H; cbn; tauto); tauto.
+  - intros [ -> | [ -> | -> ] ] H; cbn in H; repeat (destruct H as [H|H]; [discriminate|]); exact H.
+Qed.
+
+(* ... so an id that lies ONLY inside .debug_macinfo, .debug_macro or .debug_names is reported as belonging to no
+   section, although the section is a field of the Dwarf *)
+Lemma lookup_unsearched dbg place sup id s :
+  placed_ok place -> (forall sp, sup = Some sp -> placed_ok sp) ->
+  s = SMacinfo \/ s = SMacro \/ s = SNames -> inb place id s = true ->
+  (forall t, In t lookup_order -> inb place id t = false) ->
+  (forall sp t, sup = Some sp -> In t lookup_order -> inb sp id t = false) ->
+  lookup_offset_id dbg place sup id = Ok None.
+Proof.
+  intros H Hs _ _ Hmain Hsup. apply lookup_none; try assumption.
+  - apply forallb_forall. intros t Ht. rewrite (Hmain t Ht). reflexivity.
+  - intros sp Esp. apply forallb_forall. intros t Ht. rewrite (Hsup sp t Esp Ht). reflexivity.
+Qed.
+
+
+(* ------------------------------------------------------------------ Unit::dwo_name *)
+Lemma die_attr_value_first d n : die_attr_value d n = option_map val (first_attr (named n) (d_attrs d)).
+Proof.
+  unfold die_attr_value, first_attr.
+  assert (E : forall o : option (aspec * attr_value),
+             match o with Some (s, v) => Some (attr_normalise (at_name s) v) | None => None end = option_map val o)
+    by (intros [[s v]|]; reflexivity).
+  apply E.
+Qed.
+
+(* when the first entry of the unit is not a null entry it is the root Unit::new uses *)
+Lemma root_dfs_first_entry dbg h tbl c c' root :
+  entries dbg h = Ok c -> next_entry dbg (u_enc h) tbl c = Ok (SOk true c') -> current c' = Some root ->
+  root_dfs dbg h tbl = Ok root.
+Proof.
+  intros Hc Hn Hr. unfold root_dfs. rewrite Hc. cbn [bind]. unfold cursor_fuel. cbn [next_dfs]. rewrite Hn. cbn [bind].
+  unfold current in Hr. destruct (is_null (c_cur c')); [discriminate|]. inversion Hr; subst. reflexivity.
+Qed.
+
+Definition dwo_name_attr (ver : N) : N := if ver <? 5 then DW_AT_GNU_dwo_name else DW_AT_dwo_name.
+
+Lemma dwo_name_root dbg u c c' root :
+  entries dbg (un_header u) = Ok c ->
+  next_entry dbg (u_enc (un_header u)) (un_abbrevs u) c = Ok (SOk true c') -> current c' = Some root ->
+  root_dfs dbg (un_header u) (un_abbrevs u) = Ok root /\
+  dwo_name dbg u =
+  Ok (option_map val (first_attr (named (dwo_name_attr (version (u_enc (un_header u))))) (d_attrs root))).
+Proof.
+  intros Hc Hn Hr. split; [exact (root_dfs_first_entry dbg _ _ c c' root Hc Hn Hr)|].
+  unfold dwo_name. rewrite Hc. cbn [bind]. rewrite Hn. cbn [bind]. rewrite Hr.
+  rewrite die_attr_value_first. reflexivity.
+Qed.
+
+(* a leading null entry: Unit::new skips it (next_dfs), dwo_name reports MissingUnitDie *)
+Lemma dwo_name_leading_null dbg u c b c' :
+  entries dbg (un_header u) = Ok c ->
+  next_entry dbg (u_enc (un_header u)) (un_abbrevs u) c = Ok (SOk b c') -> current c' = None ->
+  dwo_name dbg u = Err EMissingUnitDie.
+Proof. intros Hc Hn Hr. unfold dwo_name. rewrite Hc. cbn [bind]. rewrite Hn. cbn [bind]. rewrite Hr. reflexivity. Qed.
+
+(* ------------------------------------------------------------------ Dwarf::unit_ranges *)
+Definition glue_other (p : rattr) : bool :=
+  negb ((nm p =? DW_AT_low_pc) || (nm p =? DW_AT_high_pc) || (nm p =? DW_AT_ranges)).
+
+Lemma view_other p : glue_other p = true -> other_attr (die_attr_view p) = true.
+Proof.
+  unfold glue_other, other_attr, die_attr_view, to_aname, nm. cbn [fst].
+  destruct (at_name (fst p) =? DW_AT_low_pc); [discriminate|].
+  destruct (at_name (fst p) =? DW_AT_high_pc); [discriminate|].
+  destruct (at_name (fst p) =? DW_AT_ranges); [discriminate|]. reflexivity.
+Qed.
+Lemma view_others l : forallb glue_other l = true -> forallb other_attr (map die_attr_view l) = true.
+Proof.
+  induction l as [|p l IH]; [reflexivity|]. cbn [forallb map]. intros H. apply andb_prop in H. destruct H as [H1 H2].
+  rewrite (view_other p H1), (IH H2). reflexivity.
+Qed.
+
+Lemma view_named p n a :
+  nm p = n -> to_aname n = a -> die_attr_view p = (a, to_aval (val p)).
+Proof. intros <- <-. reflexivity. Qed.
+
+(* unit_ranges = die_ranges (C08) of the root entry Unit::new used, in the unit's context *)
+Lemma unit_ranges_root dbg d u root :
+  root_dfs dbg (un_header u) (un_abbrevs u) = Ok root ->
+  unit_ranges dbg d u = ListsRd.die_ranges (uctx_of d u) (map die_attr_view (d_attrs root)) /\
+  unit_ranges_all dbg d u = ListsRd.die_ranges_all dbg (uctx_of d u) (map die_attr_view (d_attrs root)).
+Proof. intros H. unfold unit_ranges_all, unit_ranges, ListsRd.die_ranges_all. rewrite H. cbn [bind]. split; reflexivity. Qed.
+
+(* DW_AT_ranges of class rangelistptr: C08's resolution of the list at that offset (+ the ranges base in a
+   pre-DWARF 5 .dwo) against the unit's low_pc, in .debug_ranges / .debug_rnglists by version *)
+Lemma unit_ranges_list dbg d u root pre p post o :
+  root_dfs dbg (un_header u) (un_abbrevs u) = Ok root ->
+  d_attrs root = pre ++ p :: post -> forallb glue_other pre = true ->
+  nm p = DW_AT_ranges -> val p = VRangeListsRef o ->
+  let x := uctx_of d u in
+  unit_ranges_all dbg d u =
+  ListsRd.ranges_all dbg (ListsRd.u_cfg x) (ListsRd.u_lctx x) (dw_ranges d) (dw_rnglists d)
+    (if dw_dwo d && (version (u_enc (un_header u)) <? 5) then (o + un_rnglists_base u) mod two64 else o)
+    (un_low_pc u).
+Proof.
+  intros Hr Ha Hp Hn Hv x. destruct (unit_ranges_root dbg d u root Hr) as [_ ->].
+  rewrite Ha, map_app. cbn [map]. rewrite (view_named p DW_AT_ranges ListsRd.AtRanges Hn eq_refl), Hv. cbn [to_aval].
+  rewrite (die_ranges_list dbg x _ _ o (view_others pre Hp)). reflexivity.
+Qed.
+
+(* DW_AT_ranges of class rnglistx: through the offset table at the unit's rnglists_base *)
+Lemma unit_ranges_listx dbg d u root pre p post i off :
+  root_dfs dbg (un_header u) (un_abbrevs u) = Ok root ->
+  d_attrs root = pre ++ p :: post -> forallb glue_other pre = true ->
+  nm p = DW_AT_ranges -> val p = VDebugRngListsIndex i ->
+  N.of_nat (length (dw_rnglists d)) < two64 ->
+  offset_table (dw_be d) (fmt64 (u_enc (un_header u))) (dw_rnglists d) (un_rnglists_base u) i = Some off ->
+  off < two64 ->
+  let x := uctx_of d u in
+  unit_ranges_all dbg d u =
+  ListsRd.ranges_all dbg (ListsRd.u_cfg x) (ListsRd.u_lctx x) (dw_ranges d) (dw_rnglists d) off (un_low_pc u).
+Proof.
+  intros Hr Ha Hp Hn Hv Hlen Ht Hoff x. destruct (unit_ranges_root dbg d u root Hr) as [_ ->].
+  rewrite Ha, map_app. cbn [map]. rewrite (view_named p DW_AT_ranges ListsRd.AtRanges Hn eq_refl), Hv. cbn [to_aval].
+  rewrite (die_ranges_listx dbg x _ _ i off (view_others pre Hp) Hlen Ht Hoff). reflexivity.
+Qed.
+
+(* no DW_AT_ranges: DW_AT_low_pc (address) and DW_AT_high_pc (constant) in either order give [low, low + n) *)
+Lemma unit_ranges_low_high dbg d u root pre p1 mid p2 post lo n :
+  root_dfs dbg (un_header u) (un_abbrevs u) = Ok root ->
+  d_attrs root = pre ++ p1 :: mid ++ p2 :: post ->
+  forallb glue_other pre = true -> forallb glue_other mid = true -> forallb glue_other post = true ->
+  nm p1 = DW_AT_low_pc -> val p1 = VAddr lo -> nm p2 = DW_AT_high_pc -> val p2 = VUdata n ->
+  unit_ranges dbg d u =
+  if lo + n <? two64 then Ok (ListsRd.RiSingle (Some (lowhigh_const lo n))) else Err EAddressOverflow.
+Proof.
+  intros Hr Ha H1 H2 H3 Hn1 Hv1 Hn2 Hv2. destruct (unit_ranges_root dbg d u root Hr) as [-> _].
+  rewrite Ha, map_app. cbn [map]. rewrite map_app. cbn [map].
+  rewrite (view_named p1 DW_AT_low_pc ListsRd.AtLowPc Hn1 eq_refl), Hv1.
+  rewrite (view_named p2 DW_AT_high_pc ListsRd.AtHighPc Hn2 eq_refl), Hv2. cbn [to_aval].
+  exact (die_lowhigh_const (uctx_of d u) _ _ _ lo n (view_others pre H1) (view_others mid H2) (view_others post H3)).
+Qed.
+
+(* neither: the empty iterator *)
+Lemma unit_ranges_empty dbg d u root :
+  root_dfs dbg (un_header u) (un_abbrevs u) = Ok root -> forallb glue_other (d_attrs root) = true ->
+  unit_ranges dbg d u = Ok (ListsRd.RiSingle None) /\ unit_ranges_all dbg d u = Ok [].
+Proof.
+  intros Hr Ho. destruct (unit_ranges_root dbg d u root Hr) as [E1 E2]. rewrite E1, E2.
+  unfold ListsRd.die_ranges_all, ListsRd.die_ranges.
+  rewrite <- (app_nil_r (map die_attr_view (d_attrs root))).
+  rewrite (die_loop_other (uctx_of d u) _ [] None None None (view_others _ Ho)). cbn. split; reflexivity.
+Qed.
+
+(* ------------------------------------------------------------------ no panic from the section bytes on *)
+Lemma dwo_name_good dbg u off :
+  header_size dbg (un_header u) = Ok off -> off + nlen (u_entries (un_header u)) < two63 -> good (dwo_name dbg u).
+Proof.
+  intros Hs Hlt. unfold dwo_name, entries. rewrite Hs. cbn [bind].
+  destruct (cursor_new dbg (u_entries (un_header u)) off) as [c| | |] eqn:Ec; cbn [bind];
+    try (unfold cursor_new, raw_new in Ec;
+         destruct (chk_add 64 dbg off (nlen (u_entries (un_header u)))) eqn:Ek; cbn [bind] in Ec; try discriminate;
+         unfold chk_add in Ek; replace (off + nlen (u_entries (un_header u)) <? 2 ^ 64) with true in Ek
+           by (symmetry; apply N.ltb_lt; unfold two63 in Hlt; lia); discriminate).
+  pose proof (NavProofs.cursor_new_ok dbg _ off c Hlt Ec) as Hc.
+  pose proof (NavProofs.next_entry_inv dbg (u_enc (un_header u)) (un_abbrevs u) c Hc) as H.
+  destruct (next_entry dbg (u_enc (un_header u)) (un_abbrevs u) c) as [[b c'|x c']| | |]; try contradiction; cbn [bind].
+  - destruct (current c'); [apply good_Ok|apply good_Err].
+  - apply good_Err.
+Qed.
+
+(* every header the C02 parser returns for a section shorter than 2^63 bytes: Unit::new, unit_ranges and dwo_name
+   neither panic nor run out of fuel, whatever the other sections hold, in both build modes *)
+Lemma glue_good_parsed dbg d bigend types uoff bs h after :
+  parse_unit_header bigend types uoff bs = Ok (h, after) -> nlen bs < two63 ->
+  good (unit_new dbg d h) /\
+  forall u, un_header u = h -> good (unit_ranges_all dbg d u) /\ good (dwo_name dbg u).
+Proof.
+  intros Hp Hlen. destruct (parsed_header_size dbg _ _ _ _ _ _ Hp Hlen) as (off & Hs & Hlt).
+  destruct (parse_unit_header_sizes _ _ _ _ _ _ Hp) as (_ & _ & Hv).
+  split; [exact (unit_new_good dbg d h off Hs Hlt)|]. intros u Hu. subst h.
+  split; [exact (unit_ranges_all_good dbg d u off Hs Hlt Hv)|exact (dwo_name_good dbg u off Hs Hlt)].
+Qed.
+
+Lemma first_header_good d types : good (first_header d types).
+Proof.
+  unfold first_header. destruct (is_nil _); [apply good_Ok|].
+  apply good_bind; [exact (NavProofs.parse_unit_header_res _ _ _ _)|]. intros [h r] _. apply good_Ok.
+Qed.
+
+Lemma glue_good_bytes dbg d types :
+  nlen (dw_info d) < two63 -> nlen (dw_types d) < two63 ->
+  good (first_header d types) /\
+  forall h, first_header d types = Ok (Some h) ->
+    good (unit_new dbg d h) /\
+    forall u, un_header u = h -> good (unit_ranges_all dbg d u) /\ good (dwo_name dbg u).
+Proof.
+  intros Hi Ht. split; [apply first_header_good|]. intros h Hf. unfold first_header in Hf.
+  destruct (is_nil (if types then dw_types d else dw_info d)); [discriminate|].
+  destruct (parse_unit_header (dw_be d) types 0 (if types then dw_types d else dw_info d)) as [[h' r]| | |] eqn:E;
+    cbn [bind] in Hf; try discriminate.
+  inversion Hf; subst h'. apply (glue_good_parsed dbg d _ _ _ _ h r E). destruct types; assumption.
+Qed.
+
+(* ------------------------------------------------------------------ DW_AT_ranges after low_pc / high_pc *)
+
+(* attributes before DW_AT_ranges that cannot end die_ranges early: anything that is not low_pc / high_pc /
+   ranges, a DW_AT_low_pc of class address (not indexed), a DW_AT_high_pc of class address or constant *)
+Definition benign_view (q : ListsRd.aname * ListsRd.aval) : bool :=
+  match q with
+  | (ListsRd.AtOther, _) => true
+  | (ListsRd.AtLowPc, ListsRd.AvAddr _) => true
+  | (ListsRd.AtHighPc, ListsRd.AvAddr _) | (ListsRd.AtHighPc, ListsRd.AvUdata _) => true
+  | _ => false
+  end.
+
+Lemma die_loop_benign u : forall pre k low high size, forallb benign_view pre = true ->
+  exists low' high' size',
+    ListsRd.die_ranges_loop u (pre ++ k) low high size = ListsRd.die_ranges_loop u k low' high' size'.
+Proof.
+  induction pre as [|[a v] pre IH]; intros k low high size H; [exists low, high, size; reflexivity|].
+  cbn [forallb] in H. apply andb_prop in H. destruct H as [Hq Hp]. cbn [app].
+  destruct a; destruct v; cbn [benign_view] in Hq; try discriminate;
+    cbn [ListsRd.die_ranges_loop ListsRd.attr_address bind]; apply IH; exact Hp.
+Qed.
+
+(* once DW_AT_ranges designates a list, what was collected from low_pc / high_pc before is irrelevant *)
+Lemma ranges_attr_indep u v post l h s l' h' s' :
+  (exists o, v = ListsRd.AvRangesRef o) \/ (exists i, v = ListsRd.AvRnglistx i) ->
+  ListsRd.die_ranges_loop u ((ListsRd.AtRanges, v) :: post) l h s =
+  ListsRd.die_ranges_loop u ((ListsRd.AtRanges, v) :: post) l' h' s'.
+Proof.
+  intros [[o ->]|[i ->]]; cbn [ListsRd.die_ranges_loop]; unfold ListsRd.attr_ranges, ListsRd.attr_ranges_offset; cbn [bind].
+  - destruct (ListsRd.raw_ranges _ _ _ _) as [[inp bare]| | |]; reflexivity.
+  - destruct (ListsRd.get_offset _ _ _ _ _) as [off| | |]; cbn [bind]; try reflexivity.
+    destruct (ListsRd.raw_ranges _ _ _ _) as [[inp bare]| | |]; reflexivity.
+Qed.
+
+Lemma die_ranges_benign u pre v post :
+  forallb benign_view pre = true ->
+  (exists o, v = ListsRd.AvRangesRef o) \/ (exists i, v = ListsRd.AvRnglistx i) ->
+  ListsRd.die_ranges u (pre ++ (ListsRd.AtRanges, v) :: post) = ListsRd.die_ranges u ((ListsRd.AtRanges, v) :: post).
+Proof.
+  intros Hp Hv. unfold ListsRd.die_ranges.
+  destruct (die_loop_benign u pre ((ListsRd.AtRanges, v) :: post) None None None Hp) as (l & h & s & ->).
+  apply ranges_attr_indep. exact Hv.
+Qed.
+
+Definition glue_benign (p : rattr) : bool := benign_view (die_attr_view p).
+
+Lemma view_benign l : forallb glue_benign l = true -> forallb benign_view (map die_attr_view l) = true.
+Proof. induction l as [|p l IH]; [reflexivity|]. cbn [forallb map]. unfold glue_benign at 1. intros H.
+       apply andb_prop in H. destruct H as [H1 H2]. rewrite H1, (IH H2). reflexivity. Qed.
+
+(* unit_ranges with DW_AT_ranges after DW_AT_low_pc / DW_AT_high_pc (the usual producer order) *)
+Lemma unit_ranges_list_after_low_pc dbg d u root pre p post o :
+  root_dfs dbg (un_header u) (un_abbrevs u) = Ok root ->
+  d_attrs root = pre ++ p :: post -> forallb glue_benign pre = true ->
+  nm p = Attr.DW_AT_ranges -> val p = VRangeListsRef o ->
+  let x := uctx_of d u in
+  unit_ranges_all dbg d u =
+  ListsRd.ranges_all dbg (ListsRd.u_cfg x) (ListsRd.u_lctx x) (dw_ranges d) (dw_rnglists d)
+    (if dw_dwo d && (version (u_enc (un_header u)) <? 5) then (o + un_rnglists_base u) mod two64 else o)
+    (un_low_pc u).
+Proof.
+  intros Hr Ha Hp Hn Hv x. destruct (unit_ranges_root dbg d u root Hr) as [_ ->].
+  rewrite Ha, map_app. cbn [map]. rewrite (view_named p Attr.DW_AT_ranges ListsRd.AtRanges Hn eq_refl), Hv. cbn [to_aval].
+  unfold ListsRd.die_ranges_all.
+  rewrite (die_ranges_benign x _ (ListsRd.AvRangesRef o) _ (view_benign pre Hp)) by (left; eexists; reflexivity).
+  exact (die_ranges_list dbg x [] (map die_attr_view post) o eq_refl).
+Qed.
+
+Lemma unit_ranges_listx_after_low_pc dbg d u root pre p post i off :
+  root_dfs dbg (un_header u) (un_abbrevs u) = Ok root ->
+  d_attrs root = pre ++ p :: post -> forallb glue_benign pre = true ->
+  nm p = Attr.DW_AT_ranges -> val p = VDebugRngListsIndex i ->
+  N.of_nat (length (dw_rnglists d)) < two64 ->
+  offset_table (dw_be d) (fmt64 (u_enc (un_header u))) (dw_rnglists d) (un_rnglists_base u) i = Some off ->
+  off < two64 ->
+  let x := uctx_of d u in
+  unit_ranges_all dbg d u =
+  ListsRd.ranges_all dbg (ListsRd.u_cfg x) (ListsRd.u_lctx x) (dw_ranges d) (dw_rnglists d) off (un_low_pc u).
+Proof.
+  intros Hr Ha Hp Hn Hv Hlen Ht Hoff x. destruct (unit_ranges_root dbg d u root Hr) as [_ ->].
+  rewrite Ha, map_app. cbn [map]. rewrite (view_named p Attr.DW_AT_ranges ListsRd.AtRanges Hn eq_refl), Hv. cbn [to_aval].
+  unfold ListsRd.die_ranges_all.
+  rewrite (die_ranges_benign x _ (ListsRd.AvRnglistx i) _ (view_benign pre Hp)) by (right; eexists; reflexivity).
+  exact (die_ranges_listx dbg x [] (map die_attr_view post) i off eq_refl Hlen Ht Hoff).
+Qed.
